@@ -26,6 +26,12 @@ R14f commands survive the interpreter swap of a live edit: Engine.on_interpreter
      injected code (or by the method, or by the user) is never ticked again, never finalized and stays registered.
 R14g an injected `Call macro` makes its own invocation (opstatic/macrocall.py): a caller that arrives while another call of the macro is in
      progress does not join it (see C02 R02e) - joined, the injected code executes zero times or stops the run in the error state.
+R14h an injected Block is a block: the block lock (visit_BlockNode.try_acquire_lock), End block and End blocks all take "the locked
+     blocks" from one lookup (ProgramNode.get_locked_blocks, which walks the program tree). A Block in injected code runs through
+     visit_BlockNode like any other, so its node must be inside that lookup's domain: the injected node is attached under the program
+     tree, or the lookup (or each of its callers) also consults the registry of injected nodes. Outside the domain the injected block
+     is invisible to the lock (a method block and the injected block are active at once) and to its own `End block` (which ends the
+     method's block, or nothing).
 """
 from __future__ import annotations
 
@@ -42,6 +48,7 @@ MM = "openpectus.engine.method_manager:MethodManager"
 def run(ctx) -> None:
     _run_main(ctx)
     _r14f(ctx)
+    _r14h(ctx)
     ctx.rule("R14g", "an injected Call macro makes its own invocation")
     from ..macrocall import check as _macro_owner
     _macro_owner(ctx, "R14g")
@@ -255,3 +262,40 @@ def _r14f(ctx):
         ctx.fail("R14f", f, ctors[0], inst, "the new CommandManager only receives the pending Restart request: after a live edit (merge) every command "
                  "that was executing is orphaned - a UOD command started by injected code is never ticked again, never completes, is "
                  "never finalized and stays in uod.command_instances (also across Stop); a timed Pause/Hold never ends")
+
+
+def _r14h(ctx) -> None:
+    ctx.rule("R14h", "blocks of injected code are inside the domain of the block lock and of End block")
+    prog = ctx.prog
+    pi = prog.cls(PI)
+    inj = pi.methods.get("inject_node")
+    if inj is None:
+        raise AnchorError("PInterpreter.inject_node missing")
+    glb = prog.func("openpectus.lang.model.ast:ProgramNode.get_locked_blocks")
+    ctx.analysed(glb)
+    users = []
+    for f in pi.methods.values():
+        for c in walk_no_nested(f.node):
+            if isinstance(c, ast.Call) and call_attr(c) == "get_locked_blocks":
+                users.append((f, c))
+        for d in ast.walk(f.node):
+            if isinstance(d, ast.FunctionDef) and d is not f.node:
+                for c in ast.walk(d):
+                    if isinstance(c, ast.Call) and call_attr(c) == "get_locked_blocks" and (f, c) not in users:
+                        users.append((f, c))
+    if len(users) < 3:
+        raise AnchorError(f"only {len(users)} uses of get_locked_blocks in PInterpreter (block lock, End block, End blocks expected)")
+    attaches = any(isinstance(c, ast.Call) and call_attr(c) in ("append_child", "add_child", "insert_child") and "_program" in norm(c.func)
+                   for c in walk_no_nested(inj.node))
+    lookup_sees = "_injected_node_map" in norm(glb.node) or "injected" in norm(glb.node)
+    inst = "a Block of injected code is found by ProgramNode.get_locked_blocks"
+    blind = [(f, c) for f, c in users if "injected" not in norm(f.node)]
+    if attaches or lookup_sees or not blind:
+        ctx.ok("R14h", inst, {"rule": "R14h", "users": sorted({f.short for f, _ in users})})
+    else:
+        f, c = blind[0]
+        ctx.fail("R14h", inj, inj.node, inst, f"inject_node keeps the InjectedNode detached from the program tree and {sorted({u.short for u, _ in blind})} "
+                 "take the locked blocks from the program tree only: inject `Block: I / Mark: i1 / End block` + `Mark: i2` into `Mark: A / Wait: 1s / "
+                 "Mark: B` - the injected End block finds no block to end, Block I waits for ever and `Mark: i2` never runs; injected while the "
+                 "method's `Block: X` is about to start, both blocks hold the lock at once and the injected End block ends X (its `Mark: x2` "
+                 "and End block never run)")
